@@ -596,7 +596,11 @@ def func_level_first(F):
     ent = [c for c in walk(rs["body"]) if c.get("k") == "Call" and (c.get("callee") or "").endswith("::resolve_function_entry")]
     ext = [c for c in walk(rs["body"]) if c.get("k") == "Call" and (c.get("callee") or "").endswith("::resolve_function_exit")]
     if len(ent) != 1 or len(ext) != 1:
-        raise CheckError("resolve_special_instrumentation: expected one call each of resolve_function_entry/exit, found %d/%d" % (len(ent), len(ext)))
+        for nm_, cs_ in (("resolve_function_entry", ent), ("resolve_function_exit", ext)):
+            if not cs_:
+                F.one_fn(name=nm_)       # raises AnchorInlined when the helper was inlined into the resolver (→ undecided)
+        r.undecided("resolve_special_instrumentation calls resolve_function_entry/exit %d/%d times: order on the loop body not analysed" % (len(ent), len(ext)))
+        return r
     E, X = ent[0], ext[0]
     # innermost for-loop body containing both
     scope = None
